@@ -15,11 +15,13 @@
 package legacy
 
 import (
+	"fmt"
 	"strings"
 
 	"gopkg.in/ini.v1"
 
 	legacyauth "github.com/fatedier/frp/pkg/auth/legacy"
+	"github.com/fatedier/frp/pkg/config/types"
 )
 
 type HTTPPluginOptions struct {
@@ -243,6 +245,10 @@ func UnmarshalServerConfFromIni(source any) (ServerCommonConf, error) {
 	// allow_ports
 	allowPortStr := s.Key("allow_ports").String()
 	if allowPortStr != "" {
+		// the conversion to the v1 config drops parse errors: an unparsable list would silently allow every port
+		if _, err := types.NewPortsRangeSliceFromString(allowPortStr); err != nil {
+			return ServerCommonConf{}, fmt.Errorf("invalid allow_ports [%s]: %v", allowPortStr, err)
+		}
 		common.AllowPortsStr = allowPortStr
 	}
 
